@@ -62,8 +62,6 @@ Section Transfer.
 Variable pmatch : bytes -> bytes -> bool.
 Variable mapfn : bytes -> stat -> mres * stat.
 Variable c : cfg.
-Hypothesis Hsem : prefix_semantics pmatch.
-Hypothesis Hsafe : cfg_star_safe c = true.
 Hypothesis Hshape : map_keeps_shape mapfn.
 Hypothesis Hdirs : map_never_drops_dirs mapfn.
 Hypothesis Hspecial : map_keeps_special mapfn.
@@ -97,16 +95,16 @@ Qed.
 
 Lemma fw_entry s : In s l -> exists ss bs, In (ss, bs) (walk_root view) /\ keq2 s ss.
 Proof.
-  intros Hin. rewrite (fw_reference pmatch mapfn c Hsem Hsafe view Hwf) in Hin.
+  intros Hin.
   assert (HK : forall p s0, keq2 (snd (mapfn p s0)) s0) by (intros p s0; split; [apply Hshape|apply Hspecial]).
-  destruct (rsub_in _ _ _ (reference_rsub_gen (keep_incr pmatch c) mapfn keq2 HK view) s Hin) as ([ss bs] & He & Hk).
+  destruct (rsub_in _ _ _ (fw_rsub_gen pmatch mapfn c keq2 HK view Hwf) s Hin) as ([ss bs] & He & Hk).
   exists ss, bs. auto.
 Qed.
 
 Lemma sent_eq s : In s l -> st_is_dir s = false -> sent (st_path s) = content_at view (st_path s).
 Proof.
   intros Hin Hnd. unfold sent_content.
-  rewrite (reported_file_opens pmatch mapfn c Hsem Hsafe Hshape view Hwf Hnls s Hin Hnd). reflexivity.
+  rewrite (reported_file_opens pmatch mapfn c Hshape view Hwf Hnls s Hin Hnd). reflexivity.
 Qed.
 
 Lemma f_shape s : st_path (f s) = st_path s /\ st_mode (f s) = st_mode s.
@@ -116,7 +114,7 @@ Lemma is_reg_f s : is_reg (f s) = is_reg s.
 Proof. apply is_reg_mode. apply f_shape. Qed.
 
 Lemma fw_sorted : sorted l.
-Proof. exact (proj1 (proj1 (fw_wf_listing pmatch mapfn c Hsem Hsafe Hshape Hdirs view Hwf))). Qed.
+Proof. exact (proj1 (proj1 (fw_wf_listing pmatch mapfn c Hshape Hdirs view Hwf))). Qed.
 
 Lemma sender_links_ok : links_ok (sender_entries pmatch mapfn c view).
 Proof.
@@ -181,7 +179,7 @@ Theorem filtered_transfer_converges_proof (H : bytes -> bytes) (hdr : stat -> by
 Proof.
   intros HwA Hfaith. cbv zeta.
   assert (HwB : wf_listing (map fst (sender_entries pmatch mapfn c view))).
-  { rewrite fst_sender_entries. exact (proj1 (sv_wf_listing pmatch mapfn c Hsem Hsafe Hshape Hdirs view Hwf Hlinks)). }
+  { rewrite fst_sender_entries. exact (proj1 (sv_wf_listing pmatch mapfn c Hshape Hdirs view Hwf Hlinks)). }
   assert (Hfaith' : identity_faithful d A (sender_entries pmatch mapfn c view)).
   { intros sa ba sb bb Ha Hb Ep Hsame Hreg. unfold sender_entries in Hb.
     apply in_map_iff in Hb. destruct Hb as (s & E & Hs). inversion E; subst s bb. clear E.
